@@ -183,5 +183,7 @@ def scenarios(tier):
         )
     for n in ("1c1d", "1c2d") if tier == "quick" else ("1c1d", "1c2d", "2c1d", "2c2d"):
         out.append(Scenario(f"liquidation/{n}/after_a_liquidation_in_an_earlier_bar", liquidation, params=dict(shape=SHAPES[n], warm=False, prior_liquidation=True), shadows=SHADOWS, entry=("AaveV3Market.update", "_liquidate", "_do_liquidate", "set_market_status"), expect_outcomes=("liquidation-steps:0", "liquidation-steps:1"), max_paths=3000, time_budget_s=400, witness_cap=20))
+    for n in ("1c1d", "2c1d") if tier == "quick" else ("1c1d", "2c1d", "1c2d", "2c2d"):
+        out.append(Scenario(f"liquidation/{n}/another_aave_market_with_other_risk_parameters_in_the_process", liquidation, params=dict(shape=SHAPES[n], warm=False, neighbour_market=True), shadows=SHADOWS, entry=("AaveV3Market.update", "_liquidate", "_do_liquidate", "AaveV3CoreLib.health_factor"), expect_outcomes=("liquidation-steps:0", "liquidation-steps:1"), max_paths=3000, time_budget_s=400, witness_cap=20))
     out.append(Scenario("liquidation/1c1d/warm", liquidation, params=dict(shape=SHAPES["1c1d"], warm=True), shadows=SHADOWS, entry=("update",), max_paths=2000))
     return out
